@@ -109,5 +109,8 @@ def run(ctx: RuleContext, p: Program) -> None:
     from . import c01 as _c01
     # the printed output carries the characters of every token's current raw text (a text assigned may be an instance of a str subclass)
     ctx.try_rule(_c01.rule_print_all, p, 'PRINT-ALL')
+    from . import viewlive as _vl
+    ctx.try_rule(_vl.rule_store_edge, p, 'STORE-EDGE')
+    ctx.try_rule(_vl.rule_prop_shadow, p, 'PROP-SHADOW')
     ctx.not_decided += ['that the printed text equals the input with exactly that span replaced (runtime equality; follows from C01 + these)']
     ctx.assumptions += ['primitive: Token._update_raw_text is the single text-changing routine (OWN-TEXT, C08)']
